@@ -41,6 +41,22 @@ CHECKS = {
    text="Reference-model monitoring of the env-file parser. Constructive side: seeded files of 1-6 lines drawn as semantic values over the full line grammar (3 quoting styles, 8 reference forms, CRLF/BOM/no final newline), the map returned by UnmarshalWithLookup, ParseWithLookup and GetEnvFromFile must equal the fold of the drawn values and must-fail lines must yield an error. Exhaustive side: every string over a 14-symbol alphabet up to length 5 (quick) or 6 (thorough), plus prefixes and byte mutations of rendered files: never a panic, and outcomes compared wherever an independent backward reference decides them.",
    note="Bounded and sampled. Trusts the two reference readings, which are cross-checked against each other at run time; ambiguous regions listed under Assumptions are observed for crashes only. One known finding (empty key accepted) is pinned by the existing suite.",
    technique="runtime monitoring: constructive reference-model monitor + exhaustive bounded string enumeration + mutation fuzzing", design="4/C18"),
+ "C08": dict(category="exploration",
+   text="Every scalar position of the tested tree's own compose-spec.json that admits a string next to a typed scalar (115 typed positions out of 318) is exercised with semantic values in all textual spellings (YAML-1.1 booleans, byte sizes, durations, decimals) through five variable forms against the canonical literal; invalid texts must fail with an error naming the resource and attribute. Generated documents relate interpolation-on to interpolation-off (dollar doubling, substitution decided by the C07 reference evaluator, dollar-bearing mapping keys), and interp.Interpolate on raw trees must leave keys, shape and non-string scalars untouched.",
+   note="Sampling is schema-driven, not exhaustive over values; semantic classes the schema lacks come from a table transcribed from the specification; positions where the literal reference itself fails or panics are undecided (C01's matter).",
+   technique="runtime monitoring: schema-driven metamorphic comparison (variable vs literal, on vs off) + reference evaluator + structural invariant on raw trees", design="4/C08"),
+ "C12": dict(category="exploration",
+   text="The complete admissible product of path attribute spelling (14 spellings of the 8 path attributes) x path shape (22 shapes: relative, absolute, home, Windows, UNC, remote, named volume) x origin (main, override, include with and without project_directory, nested include, extends across directories, two-level chain) is materialised as real directory trees and loaded. Every path field is compared with the value the generator derives from the directory it wrote the attribute into; non-path decoys and the load without resolution bound what else may change; resolving an already resolved model against a different base must be a no-op.",
+   note="The product is finite and fully enumerated; companions, directory shapes and file layout are sampled. No symlinks (watch paths resolve them, which the statement does not cover); remote ResourceLoaders are not exercised.",
+   technique="runtime monitoring: constructive generator with built-in oracle + differential (resolution on/off) + idempotence invariant", design="4/C12"),
+ "C17": dict(category="exploration",
+   text="The complete product of name sources (explicit name x COMPOSE_PROJECT_NAME in every subset of four environment layers x 21 name: shapes x directory base names) and every subset of variable definitions over the four layers are loaded through cli.NewProjectOptions / LoadProject in the 72 documented option orders (rotated over the lattice) and judged by a reference written from the statement: accepted name, its form, its visibility as COMPOSE_PROJECT_NAME in Project.Environment and in interpolated values, rejection of invalid names, and the winning definition of every variable.",
+   note="An empty COMPOSE_PROJECT_NAME and the fall-through target of a last file name that normalises to empty are left open as the statement is; option orders are rotated, not crossed with the lattice.",
+   technique="runtime monitoring: reference-model monitor over an exhaustively enumerated configuration lattice", design="4/C17"),
+ "C20": dict(category="exploration",
+   text="Seeded models with canary-valued environment secrets and configs (24 decorations with YAML-significant characters) in every placement (main, override, include, re-pointed by an override) are loaded with the real loader under 8 option sets; the project and 12 derivations of it are rendered {YAML, JSON} x {default, WithSecretContent}. Every output is byte-searched for every canary and for the private carrier key, decoded to confirm exact reproduction on request and absence otherwise, Content is checked on the project, and each receiver is dumped (unexported fields included) before and after every rendering.",
+   note="Sampled, not exhaustive; a leak that transforms the value (other than YAML/JSON escaping) would be missed.",
+   technique="runtime monitoring: canary/taint monitor over all renderings of loaded and derived projects", design="4/C20"),
 }
 PLANNED = {}
 
